@@ -290,7 +290,9 @@ where
     let length_line =
         std::str::from_utf8(&length_line_buf).map_err(|_| ResponseError::Response)?;
     safe_assert(length_line.ends_with('\n'))?;
-    let length: usize = usize::from_str_radix(length_line.trim_end(), 16)
+    // The size may be followed by chunk extensions, which are ignored.
+    let length_field = length_line.split(';').next().unwrap_or(length_line);
+    let length: usize = usize::from_str_radix(length_field.trim_end(), 16)
         .map_err(|_| ResponseError::Response)?;
 
     let mut crlf = [0u8; 2];
